@@ -2,6 +2,7 @@ import NixModel.Lemmas.C20Frame
 import NixModel.Lemmas.C20Shape
 import NixModel.Lemmas.C20HistDel
 import NixModel.Lemmas.C20DelObj
+import NixModel.Store.CopyFrames
 
 /-!
 # C20 — copies are complete, independent, and keep their internal links
@@ -196,6 +197,23 @@ theorem copyIntoBlock_source {src dst : Graph} (hdst : FileOk dst) (sh : CallerS
   · exact key _ "data_arrays" (by decide) rfl rfl rfl rfl rfl
   · exact key _ "tags" (by decide) rfl rfl rfl rfl rfl
   · exact key _ "multi_tags" (by decide) rfl rfl rfl rfl rfl
+
+open Nix.Store.CopyShape in
+/-- `Block.create_data_frame(copy_from=…)` — the driver's `copyFrameIntoBlock`, executed from the
+generated shape — is the generic routine into the block's `data_frames` -/
+theorem copyFrameIntoBlock_is_generic {src dst : Graph} (hdst : FileOk dst) (bp : Path) (b : Loc) (obj : Nat)
+    (name : String) (keepId : Bool) (hb : resolve dst rootLoc bp = some b) (hbk : kindOf dst b.key = "block")
+    (h0 : b.key ∈ keys dst) (hk : kindOf src obj = "data_frame") (hid : src.entityId obj ≠ none)
+    (hleaf : nodeKind src obj ≠ .group → src.links obj = []) :
+    copyFrameIntoBlock src dst bp obj name keepId =
+      (copyGeneric src dst b.key "data_frames" obj name false keepId).map (·.1) := by
+  unfold copyFrameIntoBlock
+  simp only [hb, hbk, bne_self_eq_false, Bool.false_eq_true, ↓reduceIte]
+  rw [(entry_point_source_is_generic hdst Gen.blockCreateDataFrame (by decide) b.key obj name true keepId h0 hid
+    hleaf).2 hk]
+  show (match copyGeneric src dst b.key "data_frames" obj name false keepId with
+    | .error e => .error e | .ok (d1, root) => .ok (d1, root) : Except Err (Graph × Nat)).map (·.1) = _
+  cases copyGeneric src dst b.key "data_frames" obj name false keepId <;> rfl
 
 open Nix.Store.CopyShape in
 /-- `File.copy_section` / `Section.copy_section` of the source = `copySection` of the model -/
